@@ -136,6 +136,8 @@ def run_case(case, ctx):
         keys = ['k%d' % i for i in rng.permutation(n)]
         qd = dict(zip(keys, q))
         bd = None if base is None else dict(zip(keys, base))
+        if bd is not None:  # same content, another insertion order: candidates are matched by key, not by position
+            bd = {k: bd[k] for k in [keys[i] for i in rng.permutation(n)]}
         got = M.exponential_mechanism(dict(qd), eps, sens, base_measure=None if bd is None else dict(bd))
         judge_p(ctx, 'em_probabilities', 'Mechanism.exponential_mechanism(dict)', rec.choices[-1][1], ref, smax(coef, q))
         ctx.check(got == keys[int(np.argmax(rec.choices[-1][1]))], 'em_probabilities', 'key_mapping',
@@ -150,7 +152,9 @@ def run_case(case, ctx):
         M.generalized_exponential_mechanism(q.copy(), ds.copy(), eps, base_measure=None if base is None else blog.copy())
         judge_p(ctx, 'em_probabilities', 'generalized_exponential_mechanism(array)', rec.choices[-1][1],
                 ref_probs(scores, eps / 2.0, blog, mp), smax(eps / 2.0, scores))
-        got = M.generalized_exponential_mechanism(dict(qd), dict(zip(keys, ds)), eps, base_measure=None if bd is None else dict(bd))
+        dsd = dict(zip(keys, ds))
+        dsd = {k: dsd[k] for k in [keys[i] for i in rng.permutation(n)]}
+        got = M.generalized_exponential_mechanism(dict(qd), dsd, eps, base_measure=None if bd is None else dict(bd))
         judge_p(ctx, 'em_probabilities', 'generalized_exponential_mechanism(dict)', rec.choices[-1][1],
                 ref_probs(scores, eps / 2.0, blog, mp), smax(eps / 2.0, scores))
 
